@@ -9,6 +9,7 @@ session's `on_reply`, and returns the next request line - or "" (EOF).
 """
 import io
 import json
+import os
 import sys
 
 from . import simproc
@@ -119,6 +120,8 @@ class Session:
         ks.kconfiglib = _KconfiglibProxy(real_kl, self.kconfigs)
         old = sys.stdin, sys.stdout, sys.stderr
         sys.stdin, sys.stdout, sys.stderr = Stdin(), out, err
+        cwd = os.getcwd()
+        os.chdir(os.path.dirname(os.path.abspath(self.kconfig_path)))  # relative paths stay inside the sandbox
         try:
             with simproc.env(**self.env):
                 try:
@@ -134,6 +137,7 @@ class Session:
                     fn = next((f.name for f in reversed(tb) if "kconfserver" in f.filename), tb[-1].name if tb else "?")
                     raise ServerDied(e, fn, state["last"])
         finally:
+            os.chdir(cwd)
             sys.stdin, sys.stdout, sys.stderr = old
             ks.kconfiglib = real_kl
             self.stderr_text = err.getvalue()
